@@ -19,7 +19,7 @@ type C11Case struct {
 }
 
 func genC11(t *rapid.T) any {
-	c := &C11Case{W: genWide(t, nil), Plant: -1}
+	c := &C11Case{W: genWide(t, c11Constructs), Plant: -1}
 	if rapid.IntRange(0, 2).Draw(t, "fault") == 0 {
 		ms := c.W.markers()
 		c.Plant = rapid.IntRange(0, maxInt(len(ms)-1, 0)).Draw(t, "plant")
@@ -74,9 +74,13 @@ func genC11(t *rapid.T) any {
 	return c
 }
 
+// c11Constructs: the shared wide constructs plus the ones only this check draws (union arms with their own
+// select lists and LIMIT/OFFSET windows: the result of an arm may be a window of an array of the document)
+var c11Constructs = append(append([]string{}, wideConstructs...), "union-windowed", "union-windowed", "union-windowed", "union-windowed")
+
 var c11Composite = map[string]bool{"join": true, "left-join": true, "parallel-join": true, "hash-join": true, "cte": true, "cte-twice": true, "derived": true, "sel-sub": true,
 	"sel-sub-root": true, "in-sub": true, "exists": true, "not-exists": true, "union": true, "union-all": true, "order-limit": true, "nested-from": true, "star-sub": true,
-	"join-on-fn": true, "join-unaliased": true, "derived-cte": true, "join-derived-cte": true, "in-sub-cte": true, "sel-sub-cte": true, "exists-cte": true, "cte-union": true, "cte-nested": true, "join-derived": true, "cte-join": true, "in-sub-root": true, "exists-outer": true, "having-agg": true, "group": true, "group-having": true, "whole-agg": true, "distinct": true}
+	"join-on-fn": true, "join-unaliased": true, "derived-cte": true, "join-derived-cte": true, "in-sub-cte": true, "sel-sub-cte": true, "exists-cte": true, "cte-union": true, "cte-nested": true, "join-derived": true, "cte-join": true, "in-sub-root": true, "exists-outer": true, "having-agg": true, "group": true, "group-having": true, "whole-agg": true, "distinct": true, "union-windowed": true}
 
 func checkC11(c *C11Case) Result {
 	res := Result{}
@@ -145,7 +149,7 @@ func checkC11(c *C11Case) Result {
 func c11Grid(st *Stats) (string, any) {
 	seen := map[string]bool{}
 	runs := 0
-	for _, construct := range wideConstructs {
+	for _, construct := range c11Constructs {
 		if seen[construct] {
 			continue
 		}
@@ -190,7 +194,7 @@ func init() {
 		Title: "Queries never modify the caller's input document",
 		Rule: "rapid draws a document (rows with scalar columns and a nested array of objects, second table) and a query from the 47 wide construct " +
 			"templates (filters, CASE, IN, BETWEEN, functions, GROUP BY/HAVING/aggregates, all join kinds (both, one or no side aliased), CTEs incl. un-Wrapped WITH, a CTE used " +
-			"twice and WITH clauses inside derived tables / join sides / subqueries / EXISTS / other CTEs, derived tables, select-item / IN / [NOT] EXISTS subqueries on the row and on `<-`, UNION chains, ORDER BY/LIMIT, DISTINCT, nested " +
+			"twice and WITH clauses inside derived tables / join sides / subqueries / EXISTS / other CTEs, derived tables, select-item / IN / [NOT] EXISTS subqueries on the row and on `<-`, UNION chains, UNION / UNION ALL of 2-3 arms with select lists from {*, plain columns, computed} over either table or the nested array, each optionally parenthesised with its own WHERE / ORDER BY / LIMIT [OFFSET] window, at top level / as a CTE body / in a derived table (C11 only), ORDER BY/LIMIT, DISTINCT, nested " +
 			"FROM, star + subquery, matrices read through multi-dimensional bracket selectors, FUSE over objects of the document), with Wrapped on 1/4 of the cases; in 1/3 of the cases an injected function fails at a generated invocation " +
 			"index so that evaluation stops part-way; 1/4 of the cases execute the query twice on the same input. Oracle: cycle-safe, type-strict " +
 			"structural comparison of the live input against a harness-owned deep snapshot taken before New (no added/removed key, no `<-`, same " +
